@@ -1,11 +1,12 @@
 """C04 - extraction never crashes on a valid graph and a valid configuration.
 
 Decided: no API-reachable path contains a statically visible crash cause of the kinds
-R-NULL, R-SIG, R-ENUM, R-RAISE/R-RET, R-LAYOUT.  Not decided: value-dependent crashes
+R-NULL, R-SIG, R-ENUM, R-RAISE/R-RET, R-LAYOUT, R-TS, R-DOMAIN (initialised key domain covers the keys read), direction
+agreement of statement and serializer, non-re-entrant stages launched once.  Not decided: value-dependent crashes
 (IndexError/KeyError on data, anything inside rdflib)."""
 import ast
 from ..report import Ob, Floor
-from ..rules import sig, null, raises, enums, layout, choice
+from ..rules import sig, null, raises, enums, layout, choice, domain, direction
 from .. import exceptions
 
 S = "shexer.shaper:Shaper."
@@ -38,8 +39,13 @@ def check(ctx, tier):
     o_raise, n_post = raises.check_raises(ctx)
     o_lay, n_lay = layout.check(ctx, "D-e")
     o_choice, n_choice = choice.check(ctx, "D-c")
+    o_dom = ctx.attempt(domain.check, ctx, "D-f", default=[])
+    o_dir, _ = ctx.attempt(direction.statement_direction_agreement, ctx, "D-f", default=([], 0))
+    from .c18 import memo_obligations
+    o_memo, _ = ctx.attempt(memo_obligations, ctx, "D-g", default=([], 0))
+    o_memo = [o for o in o_memo if "first-run-guard" in o.key]
     dunder_liveness(ctx, o_calls + o_self)
-    obs = o_calls + o_self + o_exc + o_attr + o_abs + o_null + o_enum + o_ret + o_raise + o_lay + o_choice
+    obs = o_calls + o_self + o_exc + o_attr + o_abs + o_null + o_enum + o_ret + o_raise + o_lay + o_choice + o_dom + o_dir + o_memo
     exceptions.apply(obs)
     floors = [Floor("R-SIG call sites bound against a signature", len(o_calls), 850),
               Floor("R-SIG methods with self-attribute reads", len(o_self), 500),
